@@ -466,13 +466,15 @@ def calculate_derivative_of_control_matrix_from_scratch(
     basis_transformed = numeric._transform_by_unitary(eigvecs[:, None], basis[None],
                                                       out=np.empty((n_dt, d**2, d, d), complex))
     c_opers_transformed = numeric._transform_hamiltonian(eigvecs, c_opers).swapaxes(0, 1)
-    if not intermediates:
-        # None or empty
-        n_opers_transformed = numeric._transform_hamiltonian(eigvecs, n_opers,
-                                                             n_coeffs).swapaxes(0, 1)
+    # The cache might be None, empty, or populated only partially
+    intermediates = intermediates or dict()
+    n_opers_transformed = intermediates.get('n_opers_transformed')
+    first_order_integral = intermediates.get('first_order_integral')
+    if n_opers_transformed is None:
+        n_opers_transformed = numeric._transform_hamiltonian(eigvecs, n_opers, n_coeffs)
+    n_opers_transformed = n_opers_transformed.swapaxes(0, 1)
+    if first_order_integral is None:
         exp_buf, integral = np.empty((2, n_omega, d, d), dtype=complex)
-    else:
-        n_opers_transformed = intermediates['n_opers_transformed'].swapaxes(0, 1)
 
     propagators_liouville = superoperator.liouville_representation(propagators[:-1], basis)
     propagators_liouville_deriv = _liouville_derivative(dt, propagators, basis, eigvecs, eigvals,
@@ -487,10 +489,10 @@ def calculate_derivative_of_control_matrix_from_scratch(
                                           n_opers.shape, (len(omega), d, d),
                                           optimize=[(0, 3), (0, 1), (0, 1)])
     for g in range(n_dt):
-        if not intermediates:
+        if first_order_integral is None:
             integral = numeric._first_order_integral(omega, eigvals[g], dt[g], exp_buf, integral)
         else:
-            integral = intermediates['first_order_integral'][g]
+            integral = first_order_integral[g]
 
         n_coeff_deriv = n_coeffs_deriv if n_coeffs_deriv is None else n_coeffs_deriv[:, :, g]
 
